@@ -803,6 +803,12 @@ func evalC20Lock(c c20Lock, o *Obs) error {
 					}
 					msgs[w] = m
 					f.Reload(m)
+				case "reloadsame":
+					// the message the filter holds is handed back to it (a peer object re-initialised from its own state)
+					if m := f.MsgFilterLoad(); m != nil {
+						msgs[w] = m
+						f.Reload(m)
+					}
 				case "unload":
 					f.Unload()
 				case "isloaded":
@@ -852,9 +858,11 @@ func evalC20Lock(c c20Lock, o *Obs) error {
 				r, c20RoundOps(c, r), loaded, msg == nil)
 			break
 		}
-		nReload, nUnload, nAdd := 0, 0, 0
+		nReload, nUnload, nAdd, nSame := 0, 0, 0, 0
 		for w := 0; w < g; w++ {
 			switch c.Patterns[w][int(r)%len(c.Patterns[w])] {
+			case "reloadsame":
+				nSame++
 			case "reload":
 				nReload++
 			case "unload":
@@ -897,7 +905,7 @@ func evalC20Lock(c c20Lock, o *Obs) error {
 				break
 			}
 		}
-		if nUnload > 0 && nReload == 0 && loaded {
+		if nUnload > 0 && nReload == 0 && nSame == 0 && loaded {
 			failure = fmt.Errorf("after round %d (%s) a filter is still loaded", r, c20RoundOps(c, r))
 			break
 		}
@@ -930,7 +938,7 @@ var kC20Lock = register(&Kind[c20Lock]{Prop: "C20", Name: "lockstep", Eval: eval
 		for w := 0; w < g; w++ {
 			var p []string
 			for i := rapid.IntRange(1, 7).Draw(t, "plen"); i > 0; i-- {
-				p = append(p, rapid.SampledFrom([]string{"reload", "reload", "unload", "unload", "isloaded", "add", "matches"}).Draw(t, "op"))
+				p = append(p, rapid.SampledFrom([]string{"reload", "reload", "unload", "unload", "isloaded", "add", "add", "matches", "reloadsame"}).Draw(t, "op"))
 			}
 			c.Patterns = append(c.Patterns, p)
 		}
